@@ -143,12 +143,40 @@ def random_case(draw):
     form = 'list'
     if len(items) == 1 and draw(st.booleans()): form = 'tuple'
     return {'file': rel, 'sel': items, 'form': form, 'short': draw(st.booleans()),
-            'start': draw(st.one_of(st.just(0), st.just(-1), st.integers(0, 40)))}
+            'start': draw(st.one_of(st.just(0), st.just(-1), st.integers(0, 40))),
+            'warm': draw(st.sampled_from([None, None, 'reversed', 'rotated', 'same', 'first', 'other-short', 'sorted']))}
+
+
+WARM = ['reversed', 'rotated', 'same', 'first', 'other-short', 'sorted']
+
+
+def history_cases(tier):
+    """the same reader asked twice: a warm-up history() of a related selection, then the judged call"""
+    def g():
+        for rel in GL.shipped():
+            m = meta(rel)
+            names = m['tables']
+            subs = [s for s in ordered_subsets(names, min(3, len(names))) if len(s) >= 2]
+            if tier == 'quick': subs = subs[::2] if len(subs) <= 12 else subs[::5]
+            for i, sub in enumerate(subs):
+                for v in range(2 if tier == 'quick' else 6):
+                    c = variants(rel, sub, v, m['short'], m['n'])
+                    c['warm'] = WARM[(i + v) % len(WARM)]
+                    yield c
+            # several rows of ONE table in two orders (positions come back in the order asked)
+            for tn in names:
+                for v in range(2 if tier == 'quick' else 4):
+                    c = variants(rel, [tn, tn, tn], v, m['short'], m['n'])
+                    for j, it in enumerate(c['sel']): it['pos'] = POS[j % 3]; it['by'] = BY[(v + j) % 2]
+                    c['warm'] = ['reversed', 'rotated', 'sorted', 'other-short'][v]
+                    yield c
+    return g
 
 
 def searches(tier):
     q = tier == 'quick'
     return [Search('ordered_table_subsets', 'enum', enum_cases(tier), shards=16),
+            Search('call_history', 'enum', history_cases(tier), shards=16),
             Search('random_selections', 'hyp', random_case, n=640 if q else 120000, shards=16, max_shrink_s=20)]
 
 
@@ -313,6 +341,23 @@ def run_case(case, R):
         before = GL.snapshot(lst)
         arg = sel[0] if case['form'] == 'tuple' else list(sel)
         if case['form'] == 'tuple': R.label('single-tuple-form')
+        warm = case.get('warm')
+        if warm:
+            # an earlier history() on the same reader must leave nothing behind that changes this call's answer
+            ws = {'reversed': sel[::-1], 'rotated': sel[1:] + sel[:1], 'same': list(sel), 'first': sel[:1],
+                  'other-short': list(sel), 'sorted': sorted(sel, key=repr)}[warm]
+            R.label('warm:' + warm, 'warm-changes-order' if list(ws) != list(sel) else 'warm-same-order')
+            wshort = (not use_short) if warm == 'other-short' else use_short
+            w0 = Watch(lst._file)
+            lst._file = w0
+            try:
+                with R.lib('history-warmup'):
+                    try:
+                        lst.history(list(ws), short=wshort)
+                    except GL.Hang as e:
+                        R.fail('hang:warmup', '%s: history(%r, short=%r) does not terminate: %s' % (rel, ws, wshort, e)); return
+            finally:
+                lst._file = w0._f
         w = Watch(lst._file)
         lst._file = w
         hang = None
